@@ -3,8 +3,8 @@
 //! generated against it regularly contain the constructs the rarer validation rules need:
 //! arguments of every input type (lists, nested lists, input objects with required / defaulted /
 //! recursive fields, enums, custom scalars), a required argument, an interface with two
-//! implementers whose same-named fields differ in nullability / list wrapping (field merging
-//! shapes), a union, and custom directives for every executable location (one repeatable).
+//! implementers whose same-named fields differ in nullability (of the named type, of a list
+//! wrapper, of an inner list wrapper) / list wrapping (field merging shapes), a union, and custom directives for every executable location (one repeatable).
 //! The fixture is valid by itself; every root operation type gets the entry fields.
 
 use crate::refmodel::ast::*;
@@ -17,10 +17,10 @@ fn fixture_text() -> String {
     format!(
         r#"
 interface XNode {{ xid: ID! xself: XNode xn: Int }}
-type XA implements XNode {{ xid: ID! xself: XA xn: Int xs: String! xl: [Int!] xu: XU
+type XA implements XNode {{ xid: ID! xself: XA xn: Int xs: String! xl: [Int!] xln: [Int]! xll: [[Int]!] xu: XU
   xargs(i: Int, f: Float, s: String, b: Boolean, id: ID, e: XEnum, c: XScalar, o: XIn, l: [Int!], ll: [[Int]], req: Int!, nn: [XIn!]! = []): Int
   xlist(l: [Int!], o: XIn): [XA!] }}
-type XB implements XNode {{ xid: ID! xself: XB xn: Int xs: String xl: [Int] xargs(i: Int, req: Int!): Int xe: XEnum }}
+type XB implements XNode {{ xid: ID! xself: XB xn: Int xs: String xl: [Int] xln: [Int] xll: [[Int]] xargs(i: Int, req: Int!): Int xe: XEnum }}
 union XU = XA | XB
 enum XEnum {{ XA1 XB1 }}
 scalar XScalar
